@@ -155,6 +155,9 @@ def _savorize_src(cname, ops):
                   '            _v = node.get_value()',
                   '            node.make_mapping()',
                   '            node.set_attribute(%r, _v)' % op[1]]
+        elif k == 'int_add':
+            L += ['        if node.is_mapping() and node.has_attribute_type(%r, int):' % op[1],
+                  '            node.set_attribute(%r, node.get_attribute(%r).get_value() + %d)' % (op[1], op[1], op[2])]
         elif k == 'raise_if_has':
             L += ['        if node.is_mapping() and node.has_attribute(%r):' % op[1],
                   '            raise yatiml.SeasoningError("attribute %s is not allowed")' % op[1]]
@@ -192,6 +195,9 @@ def _sweeten_src(cname, ops):
         elif k == 'add':
             L += ['        if node.is_mapping():',
                   '            node.set_attribute(%r, %s)' % (op[1], lit_src(op[2]))]
+        elif k == 'int_add':
+            L += ['        if node.is_mapping() and node.has_attribute_type(%r, int):' % op[1],
+                  '            node.set_attribute(%r, node.get_attribute(%r).get_value() + %d)' % (op[1], op[1], op[2])]
         elif k == 'remove_defaults':
             L += ['        if node.is_mapping():',
                   '            node.remove_attributes_with_default_values(cls)']
